@@ -73,9 +73,21 @@ type bResult struct {
 
 const slackMs = 250
 
+// backlogN: records waiting on the input when a backlog case starts (consumed in about a second)
+const backlogN = 400000
+
 func runBatcher(c BCase) bResult {
 	sh := shutdown.NewShutdownHandler()
 	in := make(chan *marshaller.MarshalledMessage)
+	if c.Kind == "backlog" {
+		// a backlog that does not depend on how fast a feeder is: the input is a buffered channel that already
+		// holds backlogN records when the batcher starts; until they are consumed a record is always waiting
+		in = make(chan *marshaller.MarshalledMessage, backlogN)
+		for i := 0; i < backlogN; i++ {
+			rec := []byte(fmt.Sprintf("%020d", i+1))
+			in <- &marshaller.MarshalledMessage{Operation: "INSERT", Table: "public.t", Json: rec, TimeBasedKey: "7-1", WalStart: uint64(i + 1), Transaction: "7", PartitionKey: fmt.Sprintf("k%d", i%c.Keys)}
+		}
+	}
 	seenCh := make(chan []*progress.Seen, 1024)
 	writtenCh := make(chan *ordered_map.OrderedMap, 1024)
 	statsCh := make(chan stats.Stat, 1<<16)
@@ -96,6 +108,7 @@ func runBatcher(c BCase) bResult {
 		fac = kinesis.NewBatchFactory(map[string]interface{}{config.VAR_NAME_PARTITION_METHOD: partitioner.PART_METHOD_TABLENAME})
 	}
 	b := rbatcher.NewBatcher(sh, in, seenCh, writtenCh, statsCh, c.TickMs, fac, 2, c.IdleAgeMs, c.MaxAgeMs, 64, mem, rbatcher.BATCH_ROUTING_ROUND_ROBIN)
+	started := time.Now()
 	go b.StartBatching()
 	var mu sync.Mutex
 	fedAt := map[uint64]time.Time{}
@@ -173,19 +186,40 @@ func runBatcher(c BCase) bResult {
 		feed("quiet")
 	}
 	if c.Kind == "backlog" {
-		// a backlog: eight senders are parked on the batcher's input at any moment, for the whole duration:
-		// whenever the batcher looks, a record is already waiting (a burst, or catching up after a stall)
-		var fw sync.WaitGroup
-		for f := 0; f < 8; f++ {
-			fw.Add(1)
-			go func(f int) {
-				defer fw.Done()
-				for n := 0; time.Since(start) < time.Duration(c.DurMs)*time.Millisecond; n++ {
-					feed(fmt.Sprintf("k%d", (f+n)%c.Keys))
+		// judged on the FIRST hand-over: the batches opened by the first records are max-age due long before
+		// the backlog is consumed; a tick must come by and flush them although input never pauses
+		bound := float64(c.MaxAgeMs + 2*c.TickMs + slackMs)
+		deadline := started.Add(time.Duration(bound*4) * time.Millisecond)
+		first := -1.0
+		for time.Now().Before(deadline) {
+			mu.Lock()
+			n := len(gotAt)
+			if n > 0 {
+				for _, g := range gotAt {
+					if ms := float64(g.Sub(started)) / 1e6; first < 0 || ms < first {
+						first = ms
+					}
 				}
-			}(f)
+			}
+			left := len(in)
+			mu.Unlock()
+			if n > 0 || left == 0 {
+				break
+			}
+			time.Sleep(time.Millisecond)
 		}
-		fw.Wait()
+		sh.CancelFunc()
+		wg.Wait()
+		close(statsCh)
+		res := bResult{BoundMs: bound, Records: backlogN, WorstMs: first}
+		if first < 0 || first > bound {
+			late := "none within 4 x the bound"
+			if first >= 0 {
+				late = fmt.Sprintf("after %.0f ms", first)
+			}
+			res.What = fmt.Sprintf("backlog: with %d records waiting on the batcher's input from the start, the first batch reached a worker %s (tick %d ms, idle age %d ms, max age %d ms, bound incl. %d ms slack: %.0f ms): ticks are not served while input is waiting", backlogN, late, c.TickMs, c.IdleAgeMs, c.MaxAgeMs, slackMs, bound)
+		}
+		return res
 	}
 	for c.Kind != "backlog" && time.Since(start) < time.Duration(c.DurMs)*time.Millisecond {
 		mu.Lock()
@@ -453,7 +487,7 @@ func init() {
 		j, _ := json.Marshal(r)
 		return string(j) + "\n"
 	}, Run: func(rng *rand.Rand, n int, corpusDir string, rep *core.Report) string {
-		rep.Rule = "wall-clock TEST of the runtime residue of C16 (not a proof): the real StartBatching with tick 20-30 ms, idle age 40-60 ms, max age 80-120 ms, a batch size never reached, fed steadily every 2-5 ms for 0.6-0.9 s on one key, on many keys, beside an idle key, under a small memory limit, or as a BACKLOG (eight senders always parked on the input for 0.5-0.7 s: whenever the batcher looks, a record is waiting); every record must reach a worker within max age + 2 ticks + 250 ms slack (memory-pressure cases: three ticks after the input stopped the open batches hold less than the soft limit) while input keeps arriving. A case is reported only after failing 3 times in a row. Non-trivial: every case (hundreds of records each)."
+		rep.Rule = "wall-clock TEST of the runtime residue of C16 (not a proof): the real StartBatching with tick 20-30 ms, idle age 40-60 ms, max age 80-120 ms, a batch size never reached, fed steadily every 2-5 ms for 0.6-0.9 s on one key, on many keys, beside an idle key, under a small memory limit, or as a BACKLOG (400 000 records wait in the input channel when the batcher starts: the first batch must reach a worker within the bound although a record is always waiting); every record must reach a worker within max age + 2 ticks + 250 ms slack (memory-pressure cases: three ticks after the input stopped the open batches hold less than the soft limit) while input keeps arriving. A case is reported only after failing 3 times in a row. Non-trivial: every case (hundreds of records each)."
 		kinds := []string{"trickle-one-key", "trickle-many-keys", "idle-key-beside-busy-key", "memory-pressure", "backlog"}
 		cases := make([]BCase, n)
 		for i := range cases {
